@@ -3,10 +3,20 @@
   function (the count that `dim ker L_0` is compared with).  No Mathlib.
 
   There is no xgi code to mirror here (the property speaks of "the number of connected components"); the count is
-  computed by merging classes edge by edge: every node starts as its own representative, and an edge `{a, b}`
-  redirects everything represented by `rep b` to `rep a`.  `XgiModel/C13/LemmasKer.lean` proves that two nodes end
-  with the same representative exactly when they are joined by a path of 1-simplices, and that `nComponents` is the
-  number of such classes; the harness compares the count with its own union-find over all simplices and with
+  computed by merging classes edge by edge: every vertex starts as its own representative, and an edge `{a, b}`
+  redirects everything represented by `rep b` to `rep a`.
+
+  Two descriptions of that merging:
+    * `labels` — the specification: the representative as a function `Atom → Atom` (`merge` composes one more
+      edge).  It is what `XgiModel/C13/LemmasKer.lean` reasons about (`labels_spec`: same representative ⇔ joined by
+      a path of listed edges).  It is NOT run: as compiled code a bare function returned from a recursion re-evaluates
+      the previous level three times per lookup, i.e. 3^(#edges) steps.
+    * `labelTab` — what the driver runs: the same merging on an explicit association list `vertex ↦ representative`
+      (one `List.map` over the table per edge: #vertices × #edges steps).  `labelTab_eq` (below, no Mathlib needed)
+      proves that the table is exactly `labels` tabulated on its domain, and `nComponents_eq_spec` that the count
+      `nComponents` read off the table is the count `nComponentsSpec` read off `labels`, for every `SC` (no hypothesis).
+  `XgiModel/C13/LemmasKer.lean` proves that `nComponents` is the number of classes of "joined by a path of
+  1-simplices"; the harness compares the count with its own union-find over all simplices and with
   `xgi.number_connected_components`.
 -/
 import XgiModel.C13.Hodge
@@ -22,18 +32,101 @@ def edgePairs (s : SC) : List (Atom × Atom) :=
     | [a, b] => some (a, b)
     | _ => none)
 
+/-! ### specification: representatives as a function -/
+
 /-- process one edge: whatever was represented by `rep e.2` is now represented by `rep e.1` -/
 def merge (rep : Atom → Atom) (e : Atom × Atom) : Atom → Atom :=
   let ra := rep e.1
   let rb := rep e.2
   fun c => let rc := rep c; if rc = rb then ra else rc
 
-/-- representative of every vertex after all edges are processed -/
+/-- representative of every vertex after all edges are processed (specification; see the file header) -/
 def labels : List (Atom × Atom) → Atom → Atom
   | [] => id
   | e :: es => merge (labels es) e
 
+/-- the count read off the specification -/
+def nComponentsSpec (s : SC) : Nat := (dedup (s.nodes.map (labels (edgePairs s)))).length
+
+/-! ### executable: representatives as a table -/
+
+/-- `tab[c]`, a vertex without an entry represents itself -/
+def look (tab : List (Atom × Atom)) (c : Atom) : Atom :=
+  match tab.find? (fun p => p.1 = c) with
+  | some p => p.2
+  | none => c
+
+/-- process one edge on the table: entries equal to `tab[e.2]` become `tab[e.1]` -/
+def mergeTab (tab : List (Atom × Atom)) (e : Atom × Atom) : List (Atom × Atom) :=
+  let ra := look tab e.1
+  let rb := look tab e.2
+  tab.map (fun p => (p.1, if p.2 = rb then ra else p.2))
+
+/-- the table `vertex ↦ representative` over the vertices `dom` after all edges are processed -/
+def labelTab (dom : List Atom) : List (Atom × Atom) → List (Atom × Atom)
+  | [] => dom.map (fun c => (c, c))
+  | e :: es => mergeTab (labelTab dom es) e
+
+/-- every end point of a listed edge -/
+def endPoints (es : List (Atom × Atom)) : List Atom := es.flatMap (fun e => [e.1, e.2])
+
+/-- the table the driver builds: over the nodes followed by the end points of the edges (on a well-formed complex
+    these are nodes anyway), so that the entries of the nodes are the first `#nodes` ones -/
+def repTab (s : SC) : List (Atom × Atom) :=
+  let es := edgePairs s
+  labelTab (s.nodes ++ endPoints es) es
+
 /-- number of connected components of the 1-skeleton: distinct representatives among the nodes -/
-def nComponents (s : SC) : Nat := (dedup (s.nodes.map (labels (edgePairs s)))).length
+def nComponents (s : SC) : Nat := (dedup (((repTab s).take s.nodes.length).map (·.2))).length
+
+/-! ### the table is the specification, tabulated -/
+
+theorem look_map (f : Atom → Atom) (dom : List Atom) {c : Atom} (hc : c ∈ dom) :
+    look (dom.map (fun x => (x, f x))) c = f c := by
+  induction dom with
+  | nil => cases hc
+  | cons d ds ih =>
+    unfold look
+    by_cases hd : d = c
+    · subst hd; simp
+    · have hc' : c ∈ ds := by
+        cases hc with
+        | head => exact absurd rfl hd
+        | tail _ h => exact h
+      have := ih hc'
+      unfold look at this
+      simpa [List.find?_cons, hd] using this
+
+theorem mem_endPoints {es : List (Atom × Atom)} {e : Atom × Atom} (h : e ∈ es) :
+    e.1 ∈ endPoints es ∧ e.2 ∈ endPoints es := by
+  unfold endPoints
+  constructor <;> exact List.mem_flatMap.mpr ⟨e, h, by simp⟩
+
+theorem labelTab_eq (dom : List Atom) (es : List (Atom × Atom)) (h : ∀ e ∈ es, e.1 ∈ dom ∧ e.2 ∈ dom) :
+    labelTab dom es = dom.map (fun c => (c, labels es c)) := by
+  induction es with
+  | nil => simp [labelTab, labels]
+  | cons e es ih =>
+    have ih := ih (fun e' he' => h e' (List.mem_cons_of_mem _ he'))
+    obtain ⟨h1, h2⟩ := h e List.mem_cons_self
+    simp only [labelTab, mergeTab, ih, look_map (labels es) dom h1, look_map (labels es) dom h2, List.map_map]
+    apply List.map_congr_left
+    intro c _
+    simp [labels, merge]
+
+theorem repTab_eq (s : SC) :
+    repTab s = (s.nodes ++ endPoints (edgePairs s)).map (fun c => (c, labels (edgePairs s) c)) :=
+  labelTab_eq _ _ (fun _ he => ⟨List.mem_append_right _ (mem_endPoints he).1,
+    List.mem_append_right _ (mem_endPoints he).2⟩)
+
+/-- the table entry of a node is its specified representative -/
+theorem look_repTab (s : SC) {a : Atom} (ha : a ∈ s.nodes) : look (repTab s) a = labels (edgePairs s) a := by
+  rw [repTab_eq, look_map _ _ (List.mem_append_left _ ha)]
+
+/-- **the executable count is the specified count**, for every complex -/
+theorem nComponents_eq_spec (s : SC) : nComponents s = nComponentsSpec s := by
+  unfold nComponents nComponentsSpec
+  rw [repTab_eq, List.map_append, List.take_left' (by simp), List.map_map]
+  rfl
 
 end Xgi.C13
